@@ -1,7 +1,7 @@
 """C10 — view layout honours constraints, never panics, draws where it says (structural clauses)."""
 import re
 from ..mir import call_matches, callee_name, op_local
-from ..flow import expr
+from ..flow import expr, resolve_place
 from .. import oblrules
 
 CLAIM = {
@@ -104,7 +104,7 @@ def run(ctx):
         "library-precondition obligations over every body reachable from all View::layout/render impls, Layout::apply_to, FindPath::next and "
         "draw_view are discharged by abstract interpretation, by the stated SIZE-BOUND assumption (additions and multiplications of sizes), by "
         "the trusted TREE-IDS invariant of the layout store and by the POISON lemma (lock poisoning needs an earlier panic); what remains is "
-        "reported. NOT decided: that hit-testing identifies exactly the painted cells, termination of foreign View impls.")
+        "reported. (d) HIT-TEST — FindPath::next descends into a child exactly when the position lies in the half-open rectangle [pos, pos+size) that Layout::apply_to hands to the child's renderer, rebases the position by the child's origin and advances through all siblings otherwise. NOT decided: that a leaf's renderer fills its whole rectangle, termination of foreign View impls.")
     ctx.assume("valid constraint: ct.min <= ct.max component-wise; SIZE-BOUND: every size, position and constraint component is below 2^31 so sums and products of a few of them fit in usize")
     ctx.assume("a child's reported size lies within the constraint it was given (proven for the library's own views by CLAMP-CONTRACT; foreign View impls are outside the property)")
 
@@ -398,6 +398,8 @@ def run(ctx):
     else:
         ctx.violation("DIV-GUARD", "image::Image::size_cells", "guard", "round_up's divisor is not guarded by the is_empty() early return", sites=[])
 
+    hit_test(ctx)
+
     def size_arith(b, o):
         return True
 
@@ -429,3 +431,157 @@ def _usize_op(body, o):
             if ty != "usize":
                 return False
     return True
+
+
+# =============================================================================================
+# (d) hit-testing agrees with the rectangle that is painted
+# =============================================================================================
+def _split_call(e):
+    """'Op(a, b)' -> ('Op', [a, b]) splitting at top-level commas; None when e is not of that form"""
+    m = re.match(r"^(\w+)\((.*)\)$", e)
+    if not m:
+        return None
+    args, depth, cur = [], 0, ""
+    for ch in m.group(2):
+        if ch in "([{":
+            depth += 1
+        elif ch in ")]}":
+            depth -= 1
+        if ch == "," and depth == 0:
+            args.append(cur.strip())
+            cur = ""
+        else:
+            cur += ch
+    args.append(cur.strip())
+    return m.group(1), args
+
+
+def _norm_add(e):
+    c = _split_call(e)
+    if c and c[0] == "Add" and len(c[1]) == 2:
+        return "Add(%s)" % ", ".join(sorted(c[1]))
+    return e
+
+
+def _cmp_fact(e, truth):
+    """canonical 'a<=b' / 'a<b' fact carried by comparison expression e evaluating to `truth`; None if not a comparison"""
+    c = _split_call(e)
+    if not c or c[0] not in ("Le", "Lt", "Ge", "Gt") or len(c[1]) != 2:
+        return None
+    op, (a, b) = c[0], [_norm_add(x) for x in c[1]]
+    if op in ("Ge", "Gt"):
+        op, a, b = {"Ge": "Le", "Gt": "Lt"}[op], b, a
+    if not truth:   # !(a<=b) == b<a ; !(a<b) == b<=a
+        op, a, b = {"Le": "Lt", "Lt": "Le"}[op], b, a
+    return "%s%s%s" % (a, "<=" if op == "Le" else "<", b)
+
+
+def hit_test(ctx):
+    prog = ctx.prog
+    R = "HIT-TEST"
+    ctx.rule(R, "FindPath::next descends into a child iff the position is inside the half-open rectangle [pos, pos+size) that Layout::apply_to "
+                "gives to the child's renderer; the position is rebased by the child's origin; non-matching children advance to the sibling", floor=8)
+    ap = prog.body("view::layout::Layout::apply_to")
+    fp = next((b for b in prog.bodies if b.impl_trait == "std::iter::Iterator" and re.sub(r"<.*$", "", b.impl_self or "") == "view::layout::FindPath" and b.name == "next"), None)
+    if ap is None or fp is None:
+        ctx.anchor(R, "Layout::apply_to / FindPath::next")
+        return
+    # --- painted rectangle --------------------------------------------------------------------
+    views = [(bb, t) for bb, t in ap.calls() if call_matches(t, r"^surface::Shape::view$|::view_mut$|::view$")]
+    want_rows = "Range{start: arg1.pos.row, end: Add(arg1.pos.row, arg1.size.height)}"
+    want_cols = "Range{start: arg1.pos.col, end: Add(arg1.pos.col, arg1.size.width)}"
+    if len(views) != 1:
+        ctx.anchor(R, "apply_to/view-call", "Layout::apply_to does not take exactly one sub-view of its surface")
+    else:
+        t = views[0][1]
+        args = [re.sub(r"Add\(([^()]*)\)", lambda m: "Add(%s)" % ", ".join(sorted(x.strip() for x in m.group(1).split(","))), expr(ap, a)) for a in t["args"][-2:]]
+        ok = args == [want_rows, want_cols]
+        ctx.instance(R, {"apply_to_rows": args[0], "apply_to_cols": args[1], "half_open_rect_of_layout": ok})
+        if not ok:
+            ctx.violation(R, ap.path, "rect", "Layout::apply_to paints rows %s / cols %s instead of pos.row..pos.row+height / pos.col..pos.col+width" % tuple(args),
+                          sites=["%s:%d" % (ap.file, t["line"])])
+    # --- descent ------------------------------------------------------------------------------------
+    cfg = fp.cfg()
+    desc = [(bb, t) for bb, t in fp.calls() if call_matches(t, r"Option::<T>::replace$|Option::<T>::insert$") and expr(fp, t["args"][0]) == "arg1.current"]
+    if len(desc) != 1:
+        # `self.current = Some(child_id)` form
+        desc = []
+        for i, si, st in fp.assigns():
+            if resolve_place(fp, st["place"]) == "(*_1).current" and st["rv"]["k"] == "agg" and st["rv"].get("variant") == "Some":
+                desc.append((i, {"args": [None, st["rv"]["fields"][0]], "line": st["line"]}))
+    if len(desc) != 1:
+        ctx.anchor(R, "find_path/descent", "cannot identify the single place where FindPath::next selects a child")
+        return
+    D, dt = desc[0]
+    child_id = expr(fp, dt["args"][1])
+    facts_ = set()
+    guards = []
+    for x in range(len(fp.blocks)):
+        t = fp.blocks[x]["term"]
+        if t["k"] != "switch" or not cfg.dominates(x, D) or x == D:
+            continue
+        e = expr(fp, t["d"])
+        succs = [(v, tg) for v, tg in zip(t["vals"], t["targets"])] + [(None, t["otherwise"])]
+        taken = [(v, tg) for v, tg in succs if cfg.edge_dominates(x, tg, D)]
+        if len(taken) != 1:
+            continue
+        v, tg = taken[0]
+        truth = (v != "0") if v is not None else ("0" in t["vals"])
+        f = _cmp_fact(e, truth)
+        if f is not None:
+            facts_.add(f)
+            guards.append((x, tg))
+    # the child layout prefix: store[<idx>].value with idx == child_id.0
+    m = None
+    for f in sorted(facts_):
+        m = m or re.search(r"(arg1\.store\[(_\d+)\]\.value)\.pos\.col", f)
+    if not m:
+        ctx.anchor(R, "find_path/child", "no comparison against the child's pos.col dominates the descent")
+        return
+    C, idx = m.group(1), m.group(2)
+    idx_e = expr(fp, {"k": "copy", "place": {"l": int(idx[1:]), "p": []}})
+    same_child = idx_e == child_id + ".0"
+    ctx.instance(R, {"descent_block": D, "selected_child": child_id, "tested_child_index": idx_e, "same": same_child})
+    if not same_child:
+        ctx.violation(R, fp.path, "child", "FindPath::next tests the rectangle of %s but descends into %s" % (idx_e, child_id), sites=["%s:%d" % (fp.file, dt["line"])])
+    P = "arg1.pos"
+    want = {"%s.pos.col<=%s.col" % (C, P): "left edge inclusive",
+            "%s.col<%s" % (P, _norm_add("Add(%s.pos.col, %s.size.width)" % (C, C))): "right edge exclusive",
+            "%s.pos.row<=%s.row" % (C, P): "top edge inclusive",
+            "%s.row<%s" % (P, _norm_add("Add(%s.pos.row, %s.size.height)" % (C, C))): "bottom edge exclusive"}
+    for w, what in sorted(want.items()):
+        ok = w in facts_
+        ctx.instance(R, {"descent_requires": w, "edge": what, "present": ok})
+        if not ok:
+            ctx.violation(R, fp.path, "edge:" + what.replace(" ", "-"), "descending into a child does not require `%s` (%s): positions outside the painted rectangle hit the child, or painted cells miss it; guards found: %s"
+                          % (w, what, sorted(facts_)), sites=[fp.loc])
+    extra = sorted(f for f in facts_ if f not in want)
+    ctx.instance(R, {"additional_descent_guards": extra})
+    if extra:
+        ctx.violation(R, fp.path, "extra-guard", "descent is additionally guarded by %s: cells inside the painted rectangle are not attributed to the child" % extra, sites=[fp.loc])
+    # rebase
+    aggs = [expr(fp, {"k": "copy", "place": st["place"]}) for i, si, st in fp.assigns() if st["rv"]["k"] == "agg" and st["rv"].get("adt") == "terminal::Position"]
+    want_reb = "Position{row: Sub(%s.row, %s.pos.row), col: Sub(%s.col, %s.pos.col)}" % (P, C, P, C)
+    stored = [i for i, si, st in fp.assigns() if resolve_place(fp, st["place"]) == "(*_1).pos"]
+    ok = aggs == [want_reb] and len(stored) == 1 and (cfg.dominates(stored[0], D) or cfg.dominates(D, stored[0])) and all(cfg.edge_dominates(x, y, stored[0]) for x, y in guards)
+    ctx.instance(R, {"rebased_position": aggs, "expected": want_reb, "ok": bool(ok)})
+    if not ok:
+        ctx.violation(R, fp.path, "rebase", "on descent the position must become (row - child.pos.row, col - child.pos.col); found %s" % aggs, sites=[fp.loc])
+    # sibling advance: every failing comparison reaches the statement `child_id_opt = store[child].sibling` without passing the descent
+    adv = [i for i, si, st in fp.assigns() if re.fullmatch(r"arg1\.store\[_\d+\]\.sibling", expr(fp, st["rv"]["a"]) if st["rv"]["k"] == "use" else "")]
+    ok = False
+    if adv:
+        A = adv[0]
+        ok = True
+        for x in range(len(fp.blocks)):
+            t = fp.blocks[x]["term"]
+            if t["k"] != "switch" or not cfg.dominates(x, D) or _cmp_fact(expr(fp, t["d"]), True) is None:
+                continue
+            for tg in set(t["targets"] + [t["otherwise"]]):
+                if cfg.edge_dominates(x, tg, D):
+                    continue
+                if not cfg.must_pass([A], cfg.returns, tg)[0]:
+                    ok = False
+    ctx.instance(R, {"failed_test_advances_to_sibling": ok})
+    if not ok:
+        ctx.violation(R, fp.path, "sibling", "a child whose rectangle does not contain the position must be followed by its sibling (`child = store[child].sibling`)", sites=[fp.loc])
